@@ -1,5 +1,8 @@
 import Gaftools.Props.TieA6
 import Gaftools.Props.TieA2
+import Gaftools.Props.TieA8
 #print axioms Gaftools.TieA.processAlignment_gen
 #print axioms Gaftools.TieA.sortNode_gen
 #print axioms Gaftools.TieA.loopStep_gen
+#print axioms Gaftools.TieA.suffix_gen
+#print axioms Gaftools.TieA.sortStrips_gen
